@@ -167,6 +167,22 @@ func c12Body(c *core.Ctx) {
 }
 
 func c13Body(c *core.Ctx) {
+	// contents with equal payload bit counts in different modes that need different versions, one
+	// after the other in one process (both orders): the second must still get its smallest version
+	coll := qrCollisionPairs(pick(c, 20, 40))
+	for _, pr := range coll {
+		for _, o := range [][2]call{{pr[0], pr[1]}, {pr[1], pr[0]}} {
+			if !c.Mine() {
+				continue
+			}
+			Exec(c, &core.Case{Fam: "qr", S: o[0].s, P: o[0].p})
+			Exec(c, &core.Case{Fam: "qr", S: o[1].s, P: o[1].p})
+			// and the same through Auto
+			Exec(c, &core.Case{Fam: "qr", S: o[0].s, P: []int{o[0].p[0], 0}})
+			Exec(c, &core.Case{Fam: "qr", S: o[1].s, P: []int{o[1].p[0], 0}})
+		}
+	}
+	c.R.Bound("qr_collision_pairs", fmt.Sprintf("%d cross-mode pairs with equal payload bits and different minimal versions, executed back to back in both orders", len(coll)))
 	enumQR(c, pick(c, 2, 3), false, c.Thorough())
 	enumDM(c, 4, c.Thorough())
 	enumPDF(c, 4, 3, c.Thorough())
